@@ -116,17 +116,17 @@ func deriveExpectation(w *World, tb *TB, entry *ssa.Function, secretP, pp int, d
 			return why
 		}
 		wantKey := fmt.Sprintf("extract(0; call(github.com/ja7ad/otp.DecodeSecret; param(%s#%d)))", fn, secretP)
-		if ct.Args[roles.Key].String() != wantKey {
+		if !tb.EqNorm(ct.Args[roles.Key], wantKey) {
 			return "the derivation key is " + clip(normT(ct.Args[roles.Key]), 140) + ", not DecodeSecret(secret)"
 		}
 		if wc := wantCtr(); wc != "" && ct.Args[roles.Counter].String() != wc {
 			return "the derivation counter is " + clip(normT(ct.Args[roles.Counter]), 160) + ", not the step counter of the window loop"
 		}
-		wd := "call((github.com/ja7ad/otp.Digits).Int; " + resolvedField(fn, pp, def, "Digits") + ")"
-		if ct.Args[roles.Digits].String() != wd {
+		wd := resolvedField(fn, pp, def, "Digits")
+		if tb.Norm(ct.Args[roles.Digits]).String() != wd {
 			return "the derivation digits are " + clip(normT(ct.Args[roles.Digits]), 160) + ", not param.Digits (default " + def + ")"
 		}
-		if ct.Args[roles.Algo].String() != resolvedField(fn, pp, def, "Algorithm") {
+		if !tb.EqNorm(ct.Args[roles.Algo], resolvedField(fn, pp, def, "Algorithm")) {
 			return "the derivation algorithm is " + clip(normT(ct.Args[roles.Algo]), 160) + ", not param.Algorithm (default " + def + ")"
 		}
 		if lenOut != nil {
@@ -166,7 +166,11 @@ func runC03(c *Check, w *World) {
 		checkWindow(c, w, tb, iv, "R03", wi, fmt.Sprintf("param(%s#%d)", fn, ctrP), true)
 		// the gated size is param.Skew (default's when nil)
 		if wi.bound != nil {
-			got := tb.Of(stripConv(wi.bound)).String()
+			sz := wi.bound
+			if wi.form == "offset" {
+				sz = wi.sizeVal
+			}
+			got := tb.Norm(tb.Of(stripConv(sz))).String()
 			c.Decide(got == resolvedField(fn, pp, "DefaultHOTPParam", "Skew"), "R03.7", fn, "skew-resolution", "the window size is param.Skew, or the default's when param is nil", "the window size is "+clip(got, 200), w.InstrPos(wi.cond))
 		}
 		checkCompareCore(c, w, tb, "R03", val, codeP, deriveExpectation(w, tb, val, secretP, pp, "DefaultHOTPParam", func() string { return tb.Of(wi.ctrArg).String() }, nil))
